@@ -1,17 +1,22 @@
-// C13 round 2 — operation sequences on one object: floating-point and 1-D coordinates, non-trivial value
-// types (see C13_seq.hh).
+// C13 round 2 — operation sequences on one object: Vector4, floating-point and 1-D coordinates (see C13_seq.hh).
 #include "C13_seq.hh"
 
 using namespace c13;
 
 namespace {
-template <class Pt, class Val>
-void go(vf::Run& r, const SeqWorld<Pt, Val>& w, int La, int Lb) {
-  SeqRunner<Pt, Val> s(r, w);
-  s.run(La, Lb);
-  r.bound = s.bound_text(La, Lb);
-}
+using V4 = Vector4<int64_t>;
 }  // namespace
+
+// Vector4 (never instantiated by the repository's tests)
+VF_SECTION(seq_v4, 16, 16, 120) {
+  SeqWorld<V4, int64_t> w;
+  w.name = "Vector4<int64_t>";
+  w.entries = {{V4(0, 0, 0, 0), 0}, {V4(0, 0, 1, 1), 0}, {V4(1, 1, 0, 0), 0}, {V4(1, 0, 1, 0), 1}};
+  w.probe_vals = {0, 1};
+  w.corner_vals = {0, 1, 2};
+  w.box_mode = 2;
+  run_world(r, w, r.thorough() ? 5 : 4, r.thorough() ? 4 : 3);
+}
 
 VF_SECTION(seq_double, 16, 16, 120) {
   using P = Vector2<double>;
@@ -20,7 +25,7 @@ VF_SECTION(seq_double, 16, 16, 120) {
   w.entries = {{P(-0.5, -0.5), 0}, {P(-0.5, 0.5), 0}, {P(0.5, -0.5), 0}, {P(0.5, 0.5), 1}};
   w.probe_vals = {-0.5, 0.5, 1.5};
   w.corner_vals = {-0.5, 0.5, 1.5};
-  go(r, w, r.thorough() ? 5 : 4, r.thorough() ? 4 : 3);
+  run_world(r, w, r.thorough() ? 5 : 4, r.thorough() ? 4 : 3);
 }
 
 // one dimension: every node splits on the only axis
@@ -31,29 +36,5 @@ VF_SECTION(seq_1d, 16, 16, 120) {
   w.entries = {{P(0), 0}, {P(1), 0}, {P(2), 0}, {P(1), 1}};
   w.probe_vals = {0, 1, 2, 3};
   w.corner_vals = {0, 1, 2, 3};
-  go(r, w, r.thorough() ? 6 : 5, r.thorough() ? 5 : 4);
-}
-
-// heap-allocated values: delete_node moves values between nodes
-VF_SECTION(seq_string, 16, 16, 120) {
-  using P = Vector2<int64_t>;
-  SeqWorld<P, std::string> w;
-  w.name = "Vector2<int64_t> with 40-byte string values";
-  std::string a(40, 'a'), b(40, 'b');
-  w.entries = {{P(0, 0), a}, {P(0, 0), b}, {P(0, 1), a}, {P(1, 0), a}};
-  w.probe_vals = {0, 1};
-  w.corner_vals = {0, 1, 2};
-  go(r, w, r.thorough() ? 5 : 4, r.thorough() ? 4 : 3);
-}
-
-// values that count their live instances and remember being moved from; inserted through emplace
-VF_SECTION(seq_tracked, 16, 16, 120) {
-  using P = Vector2<int64_t>;
-  SeqWorld<P, Tracked> w;
-  w.name = "Vector2<int64_t> with instance-counting values";
-  w.entries = {{P(0, 0), Tracked(1)}, {P(0, 0), Tracked(2)}, {P(1, 0), Tracked(1)}, {P(0, 1), Tracked(1)}};
-  w.probe_vals = {0, 1};
-  w.corner_vals = {0, 1, 2};
-  w.emplace = true;
-  go(r, w, r.thorough() ? 5 : 4, r.thorough() ? 4 : 3);
+  run_world(r, w, r.thorough() ? 6 : 5, r.thorough() ? 5 : 4);
 }
